@@ -5,8 +5,10 @@ import (
 	"encoding/json"
 	"fmt"
 	"reflect"
+	"runtime/debug"
 	"sort"
 	"strings"
+	"sync"
 	"testing"
 
 	"github.com/alecthomas/participle/v2/lexer"
@@ -423,7 +425,59 @@ func TestC07(t *testing.T) { runProp(t, "C07", c07Rule, propC07) }
 
 func FuzzC07(f *testing.F) { fuzzProp(f, "C07", propC07) }
 
+// c07LongRuns: inputs made of hundreds of thousands of dropped tokens (a long comment block, one-character
+// whitespace rules) are flat input: Next has to get through them with a bounded stack.
+var c07LongOnce sync.Once
+
+func c07LongRuns(t *rapid.T, r *vstat.Run) {
+	debug.SetMaxStack(64 << 20)
+	rs := &lexgen.RuleSet{States: []lexgen.StateSpec{{Name: "Root", Rules: []lexgen.RuleSpec{
+		{Name: "comment", Pattern: `#[^\n]*`}, {Name: "nl", Pattern: `\n`}, {Name: "sp", Pattern: ` `}, {Name: "Word", Pattern: `\w+`},
+	}}}}
+	def, rej := newDef(rs)
+	if rej != "" {
+		return
+	}
+	for _, in := range []string{strings.Repeat("# c\n", 150000) + "end", strings.Repeat(" ", 300000) + "x " + strings.Repeat(" ", 300000)} {
+		c := &lexCase{RS: rs, Text: rs.String(), InputHex: "", Input: in[:40] + "...", ExtraNext: 1}
+		r.Journal(c, fmt.Sprintf("an input of %d dropped tokens", strings.Count(in, "\n")+strings.Count(in, " ")))
+		var o outcome
+		if pm := guardFor(func() {
+			l, err := def.LexString("f", in)
+			if err != nil {
+				o = violationf("long-run", "LexString failed: %v", err)
+				return
+			}
+			n := 0
+			for {
+				tk, err := l.Next()
+				if err != nil {
+					o = violationf("long-run", "an input of dropped tokens and one word: Next failed after %d tokens: %v", n, err)
+					return
+				}
+				if tk.EOF() {
+					break
+				}
+				if n++; tk.Value == "" || n > len(in) {
+					o = violationf("long-run", "empty token or more tokens than input bytes after %d tokens", n)
+					return
+				}
+			}
+			if tk, err := l.Next(); err != nil || !tk.EOF() {
+				o = violationf("long-run", "EOF is not sticky: %v %v", tk, err)
+			}
+		}, 6); pm != "" {
+			o = violationf("long-run", "an input of %d bytes of dropped tokens: %s", len(in), pm)
+		}
+		r.Eval()
+		r.JournalDone()
+		r.Count("long_runs_of_dropped_tokens")
+		report(t, r, o, c)
+	}
+}
+
 func propC07(t *rapid.T, r *vstat.Run) {
+	c07LongOnce.Do(func() { c07LongRuns(t, r) })
 	{
 		if rapid.IntRange(0, 9).Draw(t, "realistic") == 0 {
 			rs, in := drawFixtureLexCase(t)
